@@ -535,6 +535,12 @@ func (f *Interface) handleRecvError(addr netip.AddrPort, h *header.H) {
 	}
 
 	hr := hostinfo.GetRemote()
+	if !hr.IsValid() {
+		// A tunnel without a direct remote (relayed only) never sends to an underlay address of its own, so no
+		// legitimate recv_error can exist for it; accepting one would let any address tear the tunnel down.
+		f.l.Debug("Recv error received for a tunnel with no direct remote, ignoring", "addr", addr)
+		return
+	}
 	if hr.IsValid() && hr != addr {
 		f.l.Info("Someone spoofing recv_errors?",
 			"addr", addr,
